@@ -281,8 +281,20 @@ pub fn create_loose(case: &ContCase, dir: &Path, location: &dyn Fn(usize, &str) 
     files.extend(names.iter().map(|n| dir.join(n)));
     let mut path = dir.join(mname);
     if let Some(out) = concat_to {
+        let (out, dup) = match out.strip_prefix("dup:") {
+            // "dup:<name>": the first content pack is given twice, first, to tools::concat (same uuid stored twice)
+            Some(o) => (o, true),
+            None => (out, false),
+        };
         let outp = camino::Utf8PathBuf::from_path_buf(dir.join(out)).map_err(|_| "utf8")?;
-        jbk::tools::concat(&files, &outp).map_err(|e| format!("concat: {e}"))?;
+        let mut inputs = files.clone();
+        if dup {
+            let p1 = dir.join("pack1.jbkc");
+            inputs.retain(|f| *f != p1);
+            inputs.insert(0, p1.clone());
+            inputs.insert(0, p1);
+        }
+        jbk::tools::concat(&inputs, &outp).map_err(|e| format!("concat: {e}"))?;
         for f in &files {
             let _ = std::fs::remove_file(f);
         }
